@@ -52,6 +52,16 @@ def main(tier, replay=None):
     for lst in C.pmap("harness.agp_engine", "run_many", many, chunk=1):
         traces += lst
     traces += A.corrupt_traces(tid)
+    # the asm-format command line as a function of its arguments (AsmFormatCli.tla): every combination of input files / STDIN, extensions,
+    # -i, -o, -f, -n of the bounded model, exported by TLC and run for real (model-drift clauses)
+    afx = C.export("AsmFormatCli", "INIT Init\nNEXT Next\nCHECK_DEADLOCK FALSE\nCONSTRAINT Emit\nINVARIANT PoolOK\nCONSTANTS NRandomAsm = 0\n", run.dir, name="scen-afcli", timeout=600)
+    afs = afx["objs"]
+    if tier == "quick" and len(afs) > 1500:
+        afs = rng.sample(afs, 1500)
+    tid = max(t["tid"] for t in traces) + 1
+    for k, o in enumerate(afs):
+        o["tid"] = tid + k
+    traces += C.pmap("harness.agp_engine", "run_afcli", afs, chunk=100)
     jr = C.judge("AgpTpfTrace", traces, run.dir, consts="NRandomAsm = 0", shard=max(200, len(traces) // 16 + 1), spec="TraceSpec")
     n = C.report(run, "C05", jr["V"], {t["tid"]: t for t in traces})
     for m in jr["M"][:5]:
@@ -59,13 +69,14 @@ def main(tier, replay=None):
     rts = [t for t in traces if t["kind"] == "rt"]
     cor = [t for t in traces if t["kind"] == "corrupt"]
     cov = {
-        "states": ex["distinct"], "transitions": ex["generated"], "traces_validated_against_impl": jr["judged"], "exhaustive": False,
+        "states": ex["distinct"] + afx["distinct"], "transitions": ex["generated"] + afx["generated"], "traces_validated_against_impl": jr["judged"], "exhaustive": False,
         "evaluations": len(traces), "distinct_nontrivial": sum(1 for t in rts if len(t["asm"]["scaffolds"]) > 1 or len(t["asm"]["scaffolds"][0]["rows"]) > 0),
         "rule": "abstract assemblies of AgpTpf!Universe exported by TLC: every single-row scaffold over the row pool (6 tricky contig names x 4 coordinate pairs "
                 "up to 2e9 x strands +,-,? x 0-2 tags; 4 gap types x 2 lengths) x 3 scaffold names x 3 header variants, plus seeded random assemblies of 1-3 "
                 "scaffolds x 1-3 rows, plus 6 assemblies with coordinates of 10^12 (string tokens); each written and read back by the real AGP and TPF "
                 "code (every 10th also through the asm-format CLI), plus line-level corruptions of a canonical text, plus a few of the assemblies repeated "
                 "thousands of times so that the texts exceed 100 000 lines (cut back into periods; period 1 and every period that differs from it are judged)",
+        "asm_format_cli_scenarios_in_model": afx["distinct"], "asm_format_cli_runs": len(afs),
         "many_line_texts": len(many), "many_line_periods_judged": sum(1 for t in traces if t.get("periods")),
         "round_trip_traces": len(rts), "corrupted_line_traces": len(cor), "corruptions_that_raise": sum(1 for t in cor if t["exc"]),
         "tpf_expressible": sum(1 for t in rts if t["tpf_exc"] == ""), "through_cli": sum(1 for s in scen if s["cli"]),
